@@ -1223,7 +1223,7 @@ class World:
     def _check_val_edit_effect(self, vent, a, shape, before, ctx):
         """The edit must have the effect the same numpy operation has on a plain
         array with the same storage (dtype, values): assignments are stored,
-        update_value takes the source over (ghost cells included)."""
+        update_value takes the source's cell values over."""
         how = a["how"]
         nd = len(shape)
         ref = before
@@ -1248,8 +1248,12 @@ class World:
         except BaseException:
             return
         self.oracle_runs["edit-effect"] += 1
-        if not exact(A.full_array(vent.obj), ref):
-            det = {"var": vent.name, "how": how, "maxdiff": maxdiff(A.full_array(vent.obj), ref)}
+        # interior cells only: whether the ghost cells are carried over, left alone
+        # or recomputed eagerly by an edit is the implementation's choice (they are
+        # derived state until the next operation that recomputes them)
+        got_i = A.full_array(vent.obj)[(slice(1, -1),) * nd]
+        if not exact(got_i, inner):
+            det = {"var": vent.name, "how": how, "maxdiff": maxdiff(got_i, inner)}
             self.flag("C09", "I3", "edit-lost/val_edit:%s" % how, det)
             if how == "update":
                 # time loops of the form old.update_value(new) no longer advance
